@@ -41,6 +41,7 @@ type Fn struct {
 	Recv   bool   // pointer-receiver method (the receiver comes from a package-level variable)
 	RecvU  bool   `json:",omitempty"` // the receiver type is U instead of T
 	Name   string `json:",omitempty"` // method name; the same name exists on both receiver types
+	Defer  bool   `json:",omitempty"` // calls the next function of the chain in a deferred call (its frame is then reported at its closing brace)
 	Params []Param
 }
 
@@ -50,6 +51,9 @@ type c19Prog struct {
 	Vars   []GVar
 	Chains []Chain
 	Mutate int // 0 none; otherwise which source mismatch to apply after the build
+	// Second: another revision of the program, written into the same directory, built and
+	// crashed after the first one was analysed (same file names, different contents).
+	Second *c19Prog `json:",omitempty"`
 }
 
 var scalarTypes = []string{"bool", "int", "int8", "int16", "int32", "int64", "uint", "uint8", "uint16", "uint32", "uint64", "float32", "float64"}
@@ -150,7 +154,7 @@ func genProg(t *rapid.T, nchains int) c19Prog {
 		// them at least twice)
 		forwarded := map[string]uint64{}
 		for f := 0; f < nf; f++ {
-			fn := Fn{Recv: oneIn(t, 3, "method")}
+			fn := Fn{Recv: oneIn(t, 3, "method"), Defer: oneIn(t, 4, "defer")}
 			if fn.Recv {
 				// methods of the two receiver types share their names (run0, run1, ...)
 				fn.RecvU = rapid.Bool().Draw(t, "recvU")
@@ -271,7 +275,11 @@ func (p *c19Prog) sources() map[string]string {
 			}
 			w.WriteString(") {\n")
 			if f+1 < len(ch.Funcs) {
-				w.WriteString("\t" + p.call(c, f+1) + "\n")
+				if fn.Defer {
+					w.WriteString("\tdefer " + p.call(c, f+1) + "\n")
+				} else {
+					w.WriteString("\t" + p.call(c, f+1) + "\n")
+				}
 			} else {
 				w.WriteString("\tptrs()\n\tpanic(\"boom\")\n")
 			}
@@ -524,6 +532,18 @@ func mutateSource(src string, kind int) (string, bool) {
 func c19Oracle(p c19Prog) error {
 	dir, done := scratchDir("c19")
 	defer done()
+	if err := c19Check(p, dir); err != nil {
+		return err
+	}
+	if p.Second != nil {
+		if err := c19Check(*p.Second, dir); err != nil {
+			return fmt.Errorf("second revision of the program in the same directory: %v", err)
+		}
+	}
+	return nil
+}
+
+func c19Check(p c19Prog, dir string) error {
 	crashes, err := buildAndCrash(&p, dir)
 	if err != nil {
 		return err
@@ -619,6 +639,9 @@ var c19 = Check[c19Prog]{
 		p := genProg(t, n(12, 20))
 		if oneIn(t, 4, "mismatch") {
 			p.Mutate = rapid.IntRange(1, len(mutationNames)-1).Draw(t, "mutation")
+		} else if oneIn(t, 3, "secondRevision") {
+			q := genProg(t, n(6, 10))
+			p.Second = &q
 		}
 		return p
 	},
